@@ -178,12 +178,18 @@ def check_property(mod, world, tier="quick", seed=0):
     # outcome coverage of case-split units: every outcome of the contract must be reached in at least one arm of the split
     groups = {}
     for u, st in zip(units, stats):
-        if u.case and "unsupported" not in st:
+        if u.case:
             gname = u.name[: u.name.rfind("[")]
-            gset = groups.setdefault(gname, {"wanted": set(st.get("wanted", [])), "seen": set()})
+            gset = groups.setdefault(gname, {"wanted": set(), "seen": set(), "partial": False})
+            if "unsupported" in st or st.get("relational"):
+                gset["partial"] = True  # an arm outside the subset: what the group covers is unknown
+                continue
+            gset["wanted"] |= set(st.get("wanted", []))
             for k in st.get("outcomes", {}):
                 gset["seen"].add(k)
     for gname, gset in groups.items():
+        if gset["partial"]:
+            continue
         for k in sorted(gset["wanted"]):
             hit = k in gset["seen"] or (k == "normal" and "yield" in gset["seen"]) or any(s_.startswith("raise:") and k.startswith("raise:") and
                                            world.lib.exc_class(s_[6:]).is_subclass_of(world.lib.exc_class(k[6:])) for s_ in gset["seen"])
@@ -198,10 +204,16 @@ def check_property(mod, world, tier="quick", seed=0):
         sys.stderr.write(err + "\n")
         rep.bump(EXIT_ENGINE)
     # a unit outside the supported subset has no deductive verdict: bounded native search stands in (never counted as proved)
+    bs_cache = {}
+    reported_bounded = {}
     for name, err in unsupported_units:
         rep.say(f"UNSUPPORTED unit={name}: {err} -- falling back to the bounded native search")
         try:
-            fails = mod.bounded_search(world, name)
+            from . import native as _native
+            ck = _native.unit_version(name.split("][")[0] + "]") if "[" in name else None  # the search depends on the unit's version only
+            if ck not in bs_cache:
+                bs_cache[ck] = mod.bounded_search(world, name)
+            fails = bs_cache[ck]
         except Exception:  # noqa: BLE001
             rep.say(f"ENGINE-ERROR property={prop}: bounded search crashed: {traceback.format_exc().strip().splitlines()[-1]}")
             sys.stderr.write(traceback.format_exc())
@@ -218,6 +230,11 @@ def check_property(mod, world, tier="quick", seed=0):
                 if any(finding_matches(fd, prop, ob) for fd in kf0.get("findings", [])):
                     rep.say(f"KNOWN-FINDING: property={prop} {fl['clause']} in {name} (bounded search)")
                     continue
+                sig = (fl["clause"], json.dumps({k: v for k, v in fl.items() if k != "clause"}, sort_keys=True, default=str))
+                if sig in reported_bounded:
+                    reported_bounded[sig] += 1  # the same failing input stands for every unit that is outside the subset
+                    continue
+                reported_bounded[sig] = 0
                 fname = f"{prop}-bounded-{hashlib.sha1((fl['clause'] + name).encode()).hexdigest()[:10]}.json"
                 path = os.path.join(EVDIR, "replays", fname)
                 with open(os.path.join(VERIF, path), "w") as f:
